@@ -221,6 +221,9 @@ def get_subscript(E, obj, slc_node, node):
 
 
 def arr_getitem(E, a, idx, node):
+    if getattr(a, 'lead', None) is not None:
+        from . import grid
+        return grid.grid_get(E, a, idx, node)
     if a.ndim != 1:
         return nd_getitem(E, a, idx, node)
     if isinstance(idx, slice):
@@ -457,6 +460,15 @@ def list_binop(E, op, a, b, node):
     if isinstance(op, ast.Mult):
         lst, k = (a, b) if isinstance(a, (PyList, list, tuple)) else (b, a)
         items = lst.items if isinstance(lst, PyList) else list(lst)
+        if isinstance(k, Z) and k.ty == INT and len(items) == 1 and isinstance(items[0], (Opaque,)):
+            from . import grid
+            e0 = items[0]
+            cell = getattr(e0, 'cell', None)
+            owner = cell['ident'] if cell else None
+            g = grid.grid(E, (simp(z3.If(k.t > 0, k.t, z3.IntVal(0))),), 1, (lambda i, e0=e0: _opq_like(e0)), 'list', owner=owner)
+            if owner is not None and owner in E.st.fresh:
+                pass
+            return g
         if isinstance(k, int):
             r = items * k
             return PyList(E.new_ident(), r) if not isinstance(lst, tuple) else tuple(r)
@@ -635,3 +647,8 @@ def marker_store(E, mk, slc_node, v, node):
         f.cols[col] = new
         return
     raise Unsupported('store through %s' % mk.kind)
+
+
+def _opq_like(e0):
+    from .engine import _opq
+    return _opq(e0.t, getattr(e0, 'length', None))
